@@ -1118,6 +1118,105 @@ theorem holdsExec_model (n self : Nat) (excl : List Nat) (hn : n ≤ 255) (h1 : 
   rw [if_pos hmem] at hc
   exact hc.symm
 
+theorem foldl_step_filter (self sess : Nat) (g : Group) (seats : List Nat) (l : List Msg) (s : St) :
+    ((l.map Ev.recv).foldl (step self sess g seats) s).hist =
+      s.hist ++ l.filter (admitted self sess g seats) := by
+  induction l generalizing s with
+  | nil => simp
+  | cons a as ih =>
+    simp only [List.map_cons, List.foldl_cons]
+    rw [ih]
+    by_cases h : admitted self sess g seats a = true
+    · simp [step, receive, h, List.filter_cons]
+    · simp [step, receive, h, List.filter_cons]
+
+theorem length_filter_le_of_imp (p q : Nat → Bool) (l : List Nat) (h : ∀ m, q m = true → p m = true) :
+    (l.filter q).length ≤ (l.filter p).length := by
+  induction l with
+  | nil => simp
+  | cons a as ih =>
+    simp only [List.filter_cons]
+    cases hq : q a <;> cases hp : p a <;> simp <;> first | omega | (have := h a hq; simp [hp] at this)
+
+theorem length_filter_eq_iff (p q : Nat → Bool) (l : List Nat) (h : ∀ m, q m = true → p m = true) :
+    (l.filter q).length = (l.filter p).length ↔ ∀ m ∈ l, p m = true → q m = true := by
+  induction l with
+  | nil => simp
+  | cons a as ih =>
+    have hle := length_filter_le_of_imp p q as h
+    simp only [List.filter_cons, List.mem_cons, forall_eq_or_imp]
+    cases hq : q a <;> cases hp : p a <;> simp <;> first
+      | exact ih
+      | omega
+      | (have := h a hq; simp [hp] at this)
+
+/-- **exec_reached_iff**: whatever group `g'` the real `Execute` built for the member (the member
+    itself operating, nobody inactive), after the `exec` deliveries the member leaves the first state
+    if and only if no excluded other member is still operating in `g'` — i.e. iff `Execute`
+    disqualified every excluded other member. (A loop that disqualifies MORE than the excluded
+    members is not seen by `exec`; it is seen by the misbehaved lists of the `run`/`parties` ops.) -/
+theorem exec_reached_iff (n self : Nat) (excl : List Nat) (g' : Group) (hn : n ≤ 255)
+    (hsize : g'.size = n) (hself : g'.isOperating self = true) :
+    execReached n self excl g' = true ↔
+      ∀ m, g'.isOperating m = true → m ≠ self → m ∉ excl := by
+  have hin : ∀ m, g'.isOperating m = true → m ∈ List.range' 1 n := by
+    intro m hm
+    simp only [Group.isOperating, Group.inGroup, Bool.and_eq_true, decide_eq_true_eq] at hm
+    rw [List.mem_range']; exact ⟨m - 1, by omega, by omega⟩
+  have hRn : (List.range' 1 n).Nodup :=
+    List.nodup_iff_pairwise_ne.2 ((List.pairwise_lt_range' (s := 1) (n := n)).imp (fun h => Nat.ne_of_lt h))
+  unfold execReached
+  rw [execEvents_eq]
+  unfold run
+  rw [foldl_step_filter]
+  have hadm : ∀ m ∈ execSenders n self excl,
+      admitted self 1 g' (List.range' 1 n) (⟨0, m, m, 1, m⟩ : Msg) = g'.isOperating m := by
+    intro m hm
+    rw [execSenders, List.mem_filter, List.mem_range'] at hm
+    obtain ⟨⟨k, hk, hmk⟩, hp⟩ := hm
+    simp only [Bool.and_eq_true, Bool.not_eq_true', beq_eq_false_iff_ne, ne_eq] at hp
+    have hv : validMembership (List.range' 1 n) m m = true := by
+      unfold validMembership
+      have : (m + 255) % 256 = m - 1 := by omega
+      rw [this, List.getElem?_range' (by omega)]
+      simp; omega
+    have hs : (m == self) = false := by simpa using hp.1
+    simp [admitted, shouldAccept, hs, hv]
+  rw [List.filter_map, List.filter_congr (q := fun m => g'.isOperating m) (by
+    intro m hm; exact hadm m hm)]
+  simp only [List.nil_append, canTransition, kindOf, received, beq_iff_eq]
+  rw [List.filter_eq_self.2 (by
+    intro x hx
+    obtain ⟨m, _, rfl⟩ := List.mem_map.1 hx
+    rfl)]
+  rw [dedupFrom_of_nodup [] _ (by
+    rw [List.map_map]
+    simp only [Function.comp_def, List.map_id']
+    exact (hRn.sublist List.filter_sublist).sublist List.filter_sublist) (by simp)]
+  rw [List.length_map, execSenders, List.filter_filter]
+  have hop : g'.operating.length =
+      ((List.range' 1 n).filter fun m => !(m == self) && g'.isOperating m).length + 1 := by
+    unfold Group.operating
+    rw [hsize, List.filter_congr (q := fun m => m == self || g'.isOperating m) (by
+      intro m _
+      by_cases e : m = self
+      · subst e; simp [hself]
+      · simp [e])]
+    rw [count_with_self self (fun m => g'.isOperating m) _ hRn, if_pos (hin self hself)]
+  rw [hop, Nat.add_right_cancel_iff,
+    length_filter_eq_iff (fun m => !(m == self) && g'.isOperating m) _ _ (by
+      intro m hm
+      simp only [Bool.and_eq_true] at hm ⊢
+      exact ⟨hm.2.1, hm.1⟩)]
+  constructor
+  · intro h m hm hms
+    have := h m (hin m hm) (by simp [hms, hm])
+    simp only [Bool.and_eq_true, Bool.not_eq_true', List.contains_eq_mem, decide_eq_false_iff_not] at this
+    exact this.2.2
+  · intro h m _ hm
+    simp only [Bool.and_eq_true, Bool.not_eq_true', beq_eq_false_iff_ne, ne_eq] at hm
+    simp [hm.1, hm.2, h m hm.2 hm.1]
+
 example : (memberGroup 5 1 [3, 3, 9, 1]).operating = [1, 2, 4, 5] := by decide
 example : misbehaved (memberGroup 5 1 [3, 3, 9, 1]) = [3] := by decide
 example : partyKeys 1000 (memberGroup 5 2 [4]) = [1001, 1002, 1003, 1005] := by decide
